@@ -1066,7 +1066,7 @@ Proof.
   - apply cst_is_eq in W. unfold upd. deq c c0; congruence.
   - unfold upd. deq c c0; auto.
   - destruct (own_open sp c0 t); [destruct (st sp t); auto|]. simpl. unfold upd. deq c c0; auto.
-  - destruct (own_open sp c0 t); auto.
+  - destruct (own_open sp c0 t); auto. destruct dc; auto.
   - destruct (tom sp mb); auto. destruct (st sp n); auto. destruct waiting; auto.
 Qed.
 
